@@ -2,6 +2,7 @@
 // code serves .journal members): the loop of decompress_to_ntf (src/readers/filedecompressor.rs) that looks for the member named
 // after the `|` in the path picks the FIRST member whose name EQUALS that name -- not one that merely resembles it -- and none if
 // there is no such member.  The loop is cut from the function; what is extracted afterwards, and the tar crate, stay assumed (C05).
+// TAR-META: the same lookup in BlockReader::new (index, size, stored modification time of a text / accounting-record member).
 // Assumed by contract (stand-ins, R9): the tar crate's `entries_with_seek().enumerate()` as a finite list of results,
 // Entry::path / Header::size / cksum / mtime, `Cow<Path>::to_string_lossy().to_string()` (the member's name as text),
 // `&String != &String`, String::ends_with / as_str by their std meaning, SystemTime arithmetic opaque.
@@ -41,12 +42,14 @@ pub fn verif_string_ne(a: &FPath, b: &FPath) -> (r: bool) ensures r == (a.text()
 #[verifier::external_body]
 pub struct Header { _p: u8 }
 impl Header {
+    pub uninterp spec fn size_ok(&self) -> Option<u64>;
+    pub uninterp spec fn mtime_ok(&self) -> Option<u64>;
     #[verifier::external_body]
-    pub fn size(&self) -> (r: core::result::Result<u64, IoErr>) { unimplemented!() }
+    pub fn size(&self) -> (r: core::result::Result<u64, IoErr>) ensures r is Ok <==> self.size_ok() is Some, r is Ok ==> r->Ok_0 == self.size_ok().unwrap() { unimplemented!() }
     #[verifier::external_body]
     pub fn cksum(&self) -> (r: core::result::Result<u32, IoErr>) { unimplemented!() }
     #[verifier::external_body]
-    pub fn mtime(&self) -> (r: core::result::Result<u64, IoErr>) { unimplemented!() }
+    pub fn mtime(&self) -> (r: core::result::Result<u64, IoErr>) ensures r is Ok <==> self.mtime_ok() is Some, r is Ok ==> r->Ok_0 == self.mtime_ok().unwrap() { unimplemented!() }
 }
 #[verifier::external_body]
 pub struct NameCow { _p: u8 }
@@ -63,8 +66,9 @@ impl Entry {
     pub uninterp spec fn name(&self) -> Option<Seq<char>>;
     #[verifier::external_body]
     pub fn path(&self) -> (r: core::result::Result<NameCow, IoErr>) ensures r is Ok <==> self.name() is Some, r is Ok ==> r->Ok_0.text() == self.name().unwrap() { unimplemented!() }
+    pub uninterp spec fn header_spec(&self) -> Header;
     #[verifier::external_body]
-    pub fn header(&self) -> (r: &Header) { unimplemented!() }
+    pub fn header(&self) -> (r: &Header) ensures *r == self.header_spec() { unimplemented!() }
 }
 pub type EntryRes = core::result::Result<Entry, IoErr>;
 #[verifier::external_body]
@@ -122,6 +126,60 @@ pub fn tar_find_member(entries: Vec<(usize, EntryRes)>, subpath: &FPath, found: 
     *found = entry_opt;
     *mtime_out = mtime_opt;
     DtnResult::OkNone
+}
+
+// =====================================================================================================
+// TAR-META — the same lookup in BlockReader::new (src/readers/blockreader.rs), for text and accounting-record members: the member's
+// index (which read_block_FileTar later reads), its size and its stored modification time (C11: "for .gz and .tar the modification
+// time stored inside") are those of the first member named exactly as asked
+pub struct BlockReader { pub x: u8 }
+pub enum NewResult { Err(IoErr), Cont }
+#[verifier::external_body]
+pub fn err_from_err_path_result<T>(err: &IoErr, path: &FPath, mesg: Option<&str>) -> (r: NewResult) ensures r is Err { unimplemented!() }
+#[verifier::exec_allows_no_decreases_clause]
+pub fn tar_member_meta(entries: Vec<(usize, EntryRes)>, subpath: &FPath, path: FPath, entry_index_out: &mut usize, filesz_out: &mut FileSz, mtime_out: &mut TarMTime) -> (r: NewResult)
+    requires forall|i: int| 0 <= i < entries@.len() ==> (#[trigger] entries@[i]).0 == i
+    ensures
+        r is Cont ==> forall|i: int| 0 <= i < entries@.len() && #[trigger] wanted(entries@, i, subpath.text()) && (forall|j: int| 0 <= j < i ==> !wanted(entries@, j, subpath.text()))
+            ==> *final(entry_index_out) == i
+                && *final(filesz_out) == entries@[i].1->Ok_0.header_spec().size_ok().unwrap()
+                && *final(mtime_out) == (if entries@[i].1->Ok_0.header_spec().mtime_ok() is Some { entries@[i].1->Ok_0.header_spec().mtime_ok().unwrap() } else { 0 }),
+{
+    let ghost es = entries@; let ghost want = subpath.text();
+    let mut filesz_actual: FileSz = 0;
+    let mut checksum: TarChecksum = 0;
+    let mut mtime: TarMTime = 0;
+    let entry_iter = entries;
+//@cut slice path=src/readers/blockreader.rs impl=BlockReader fn=new anchor="let mut entry_index: usize = 0;" take=range end_anchor="for (index, entry_res) in entry_iter.enumerate()" label=TAR-META
+//@replace "entry_iter.enumerate()" "entry_iter"
+//@replace "let entry: tar::Entry<File> = match entry_res {" "let entry: Entry = match entry_res {"
+//@replace "let subpath_cow: Cow<Path> = match entry.path() {" "let subpath_cow: NameCow = match entry.path() {"
+//@replace "subpath_cow .to_string_lossy() .to_string()" "subpath_cow.verif_to_fpath()" ws=1
+//@replace "subpath != &subfpath" "verif_string_ne(subpath, &subfpath)" count=0+
+//@desugar_for 1 it
+//@before "filesz_actual = match entry.header().size() {"
+                    proof {
+                        let k = it__old.index@ as int;
+                        assert(es[k].1 is Ok && es[k].1->Ok_0 == entry && es[k].0 == k);
+                        assert(wanted(es, k, want));
+                    }
+//@loop 1
+        invariant_except_break
+            vstd::std_specs::iter::IteratorSpec::decrease(&it.iter) is Some,
+            forall|j: int| 0 <= j < it.index@ ==> !wanted(es, j, want),
+        invariant
+            it.snapshot@ == it__snap0, it.wf(), it.seq() == es, 0 <= it.index@ <= it.seq().len(), want == subpath.text(),
+            forall|i: int| 0 <= i < es.len() ==> (#[trigger] es[i]).0 == i,
+        ensures
+            forall|i: int| 0 <= i < es.len() && #[trigger] wanted(es, i, want) && (forall|j: int| 0 <= j < i ==> !wanted(es, j, want))
+                ==> entry_index == i && filesz_actual == es[i].1->Ok_0.header_spec().size_ok().unwrap()
+                    && mtime == (if es[i].1->Ok_0.header_spec().mtime_ok() is Some { es[i].1->Ok_0.header_spec().mtime_ok().unwrap() } else { 0 }),
+        decreases vstd::std_specs::iter::IteratorSpec::decrease(&it.iter).unwrap_or(arbitrary()),
+//@end
+    *entry_index_out = entry_index;
+    *filesz_out = filesz_actual;
+    *mtime_out = mtime;
+    NewResult::Cont
 }
 
 /// vacuity guard: must NOT verify
